@@ -262,7 +262,7 @@ def _parse_entries(img, area, first, value_base, is_block, ino_gen=None):
             except (ValueError, KeyError):
                 data, phys, meta = None, [], 0
             ea = dict(ino=inum, size=size, links=links, ref=(ctime << 32) | version, stored_hash=atime, flags=flags,
-                      mode=mode, sectors=blocks_lo, nphys=len(phys) + meta, in_use=img.inode_in_use(inum),
+                      mode=mode, sectors=blocks_lo, nphys=len(phys) + meta, meta=meta, in_use=img.inode_in_use(inum),
                       blocks_in_use=all(img.block_in_use(b) for b in phys))
             if data is not None:
                 ea["crc_ok"] = (crc32c(img.csum_seed, data) == atime)
